@@ -5,10 +5,11 @@ C02 — parsing assigns the CEL grammar's precedence, associativity and grouping
 
 Specification (`Lemmas/ParseLevels.lean`): `T` is a derivation tree of the CEL operator grammar — `?:`
 (level 0), `||` (1), `&&` (2), the relations and `in` (3), `+ -` (4), `* / %` (5), runs of `!` / unary `-`
-(6), members: identifiers, integer literals, parenthesised expressions (7).  `T.Wf` is derivability: a left
+(6), members (7): a primary — identifier, integer literal, parenthesised expression — followed by a chain of
+postfix operations `.name`, `[index]`, `(arguments)`.  `T.Wf` is derivability: a left
 operand sits at the operator's level or tighter (grouping to the left), a right operand strictly tighter,
 the condition and true branch of `?:` are `||`-level or tighter while its else branch is any expression
-(nesting to the right), a unary run applies to a member.  `render t` is the token list the tree derives,
+(nesting to the right), a unary run and a postfix operation apply to a member.  `render t` is the token list the tree derives,
 `embed t` the syntax tree the grammar assigns to it (`Parens` nodes where the derivation has
 parentheses).  All of this is written without reference to the parser.
 
@@ -17,12 +18,13 @@ runs and the harness compares with `Program::ast()`), run on the token list of A
 returns exactly the tree of that derivation — for trees of every size; the only bounds are the
 parser's own nesting limit (`nest t < 32`, tight) and recursion fuel.  The corollaries spell out what the
 property text lists: left grouping at equal precedence, the order of the levels, `?:` loosest and nesting
-right, unary runs tighter than every binary operator, parentheses override; adding parentheses that agree
+right, unary runs tighter than every binary operator, postfix chains tightest, parentheses override; adding
+parentheses that agree
 with the structure (or moving tokens, i.e. changing whitespace) does not change the tree modulo `Parens`.
 
-Not proved here (sampled by the harness instead): postfix chains `.f`, `[i]`, `(args)`, list/map
-literals and `match` inside operands (the operand alphabet of the theorems is identifiers, integer
-literals and parenthesised expressions); the character-level tokenizer (whitespace is covered on the
+Not proved here (sampled by the harness instead): calls with more than two arguments, list/map
+literals, the other literal kinds and `match` inside operands (the primaries of the theorems are
+identifiers, integer literals and parenthesised expressions); the character-level tokenizer (whitespace is covered on the
 token level: spans are arbitrary); invariance of the *evaluation result* under redundant parentheses
 (only `paren_compiles_to_inner` below; `(a || b) || c` and `a || b || c` get different jump layouts).
 -/
@@ -143,6 +145,49 @@ theorem unary_tighter (op : BinOp) (a b : T) (s n m : Span) (ns ms : List Span)
     ⟨by simp [T.level]; omega, by simp [T.level]; omega, ⟨ha.2, ha.1⟩, ⟨hb.2, hb.1⟩⟩ f hfit eof
   simpa [render] using this
 
+/-- Postfix chains bind tighter than unary runs: `-e.name` negates the member access, `!e[i]` negates
+    the indexed value (it is not `(-e).name` / `(!e)[i]`). -/
+theorem postfix_tighter_than_unary (e i : T) (m d n o l r : Span) (ms os : List Span) (name : Str)
+    (he : Operand 7 e) (hi : i.Wf) (f : Nat) (eof : Loc) :
+    (Fits (.negs m ms (.access e d n name)) f →
+      parseFrom listSrc f (src ((m :: ms).map (fun x => (Tok.minus, x)) ++ (render e ++
+          [(Tok.dot, d), (Tok.ident name, n)])) eof)
+        = .ok (embed (.negs m ms (.access e d n name)))) ∧
+    (Fits (.nots o os (.index e l r i)) f →
+      parseFrom listSrc f (src ((o :: os).map (fun x => (Tok.not, x)) ++ (render e ++
+          (Tok.lbracket, l) :: (render i ++ [(Tok.rbracket, r)]))) eof)
+        = .ok (embed (.nots o os (.index e l r i)))) := by
+  constructor
+  · intro hfit
+    have := parse_render (.negs m ms (.access e d n name)) ⟨by simp [T.level], he.2, he.1⟩ f hfit eof
+    simpa [render] using this
+  · intro hfit
+    have := parse_render (.nots o os (.index e l r i)) ⟨by simp [T.level], he.2, he.1, hi⟩ f hfit eof
+    simpa [render] using this
+
+/-- … and tighter than every binary operator, applying left to right: `a op e.name[i](x, y)` is
+    `a op (((e.name)[i])(x, y))`, a method call on the indexed member. -/
+theorem postfix_chain (op : BinOp) (a e i x y : T) (s d n l r cl cr cm : Span) (name : Str)
+    (ha : Operand op.level a) (he : Operand 7 e) (hi : i.Wf) (hx : x.Wf) (hy : y.Wf)
+    (f : Nat) (hfit : Fits (.bin op s a (.call2 (.index (.access e d n name) l r i) cl cr x cm y)) f)
+    (eof : Loc) :
+    parseFrom listSrc f (src (render a ++ (tokOf op, s) :: (render e ++ (Tok.dot, d) :: (Tok.ident name, n) ::
+        (Tok.lbracket, l) :: (render i ++ (Tok.rbracket, r) :: (Tok.lparen, cl) :: (render x ++ (Tok.comma, cm) ::
+        (render y ++ [(Tok.rparen, cr)]))))) eof)
+      = .ok (embed (.bin op s a (.call2 (.index (.access e d n name) l r i) cl cr x cm y))) := by
+  have h5 : op.level ≤ 5 := by cases op <;> simp [BinOp.level]
+  have := parse_render (.bin op s a (.call2 (.index (.access e d n name) l r i) cl cr x cm y))
+    ⟨ha.2, by simp only [T.level]; omega, ha.1,
+      ⟨by simp [T.level], ⟨by simp [T.level], ⟨he.2, he.1⟩, hi⟩, hx, hy⟩⟩ f hfit eof
+  simpa [render] using this
+
+/-- The chain and the arguments as `Program::ast()` stores them: operations first to last, the
+    arguments of a call last to first. -/
+theorem postfix_chain_tree (sp d n l r cl cr cm sx sy si : Span) (v name : Str) (k : Nat) (x y : Str) :
+    embed (.call2 (.index (.access (.ident sp v) d n name) l r (.int si k)) cl cr (.ident sx x) cm (.ident sy y))
+      = mkMember (.ident sp v) [.access (d.join n) n name, .index (l.join r) (embed (.int si k)),
+          .call (cl.join cr) [embed (.ident sy y), embed (.ident sx x)]] := rfl
+
 /-- Parentheses override: `(a o₁ b) o₂ c` and `a o₂ (b o₁ c)` keep the parenthesised operand whole, for
     every pair of operators. -/
 theorem parens_override (o₁ o₂ : BinOp) (a b c : T) (s₁ s₂ l r : Span)
@@ -175,7 +220,7 @@ theorem parens_override (o₁ o₂ : BinOp) (a b c : T) (s₁ s₂ l r : Span)
 theorem parse_shape (t : T) (hw : t.Wf) (f : Nat) (hfit : Fits t f) (eof : Loc) :
     (parseFrom listSrc f (src (render t) eof)).map Ast.skel = .ok t.skel := by
   rw [parse_render t hw f hfit eof]
-  simp [Except.map, embed_skel]
+  simp [Except.map, embed_skel t hw]
 
 /-- Adding parentheses that agree with the structure, or changing the whitespace between tokens, does
     not change the shape of the syntax tree: two derivations of the same operator tree (they differ in
@@ -203,13 +248,13 @@ section Examples
 private def sp0 : Span := default
 private def v (s : String) : T := .ident sp0 s.toList
 
-/-- `a || b && c < d + e * -f ? !g : h - i - 3` (nine binary operators and a `?:`). -/
+/-- `a || b && c < d + e * -f.k ? !g[0] : h - i - m(3, j)` (nine binary operators, a `?:`, postfix chains). -/
 private def big : T :=
   .tern sp0 sp0
     (.bin .or sp0 (v "a") (.bin .and sp0 (v "b") (.bin .lt sp0 (v "c")
-      (.bin .add sp0 (v "d") (.bin .mul sp0 (v "e") (.negs sp0 [] (v "f")))))))
-    (.nots sp0 [] (v "g"))
-    (.bin .sub sp0 (.bin .sub sp0 (v "h") (v "i")) (.int sp0 3))
+      (.bin .add sp0 (v "d") (.bin .mul sp0 (v "e") (.negs sp0 [] (.access (v "f") sp0 sp0 "k".toList)))))))
+    (.nots sp0 [] (.index (v "g") sp0 sp0 (.int sp0 0)))
+    (.bin .sub sp0 (.bin .sub sp0 (v "h") (v "i")) (.call2 (v "m") sp0 sp0 (.int sp0 3) sp0 (v "j")))
 
 example : big.Wf := by simp [big, v, T.Wf, T.level, BinOp.level, i64Max]
 example : Fits big 400 := by simp [Fits, big, v, nest, fuel, maxNesting]
